@@ -109,7 +109,7 @@ def message_binding(res, exe, tier, seed, wd, gs):
     rng = random.Random(seed + 23)
     sub = [g for g in gs if gens.csd(g) >= 1]
     sub = sub[::(9 if tier == 'quick' else 2)]
-    sub += [g for g in gens.random_graphs(rng, 50 if tier == 'quick' else 700, 4, 7, 11, [[1], [1, 2], [1, 2, 3], list(range(1, 20))]) if gens.csd(g) >= 1]
+    sub += [g for g in gens.random_graphs(rng, 50 if tier == 'quick' else 400, 4, 7, 11, [[1], [1, 2], [1, 2, 3], list(range(1, 20))]) if gens.csd(g) >= 1]
     sub += [gens.reweight(rng, gens.complete(5), ws) for ws in ([1], [1, 2], list(range(1, 30)))]
     lines = [vlib.graph_line(300000 + i, g['n'], g['edges'], 1) for i, g in enumerate(sub)]
     trace = vlib.parallel_record(exe, lines, wd, 'mpimsg', extra=['--msg', '--P', '1,2,3,5' if tier == 'quick' else '1,2,3,4,5,8', '--layouts', 'identity,random', '--seeds', '1' if tier == 'quick' else '3', '--seed', str(seed)], timeout=3000)
